@@ -105,16 +105,43 @@ func respToks(resp commands.Response, err error) []Tok {
 }
 
 func init() {
-	opTimeout["c13"] = 120 * time.Second
+	opTimeout["c13"] = 400 * time.Second
 	// c13 events...:
 	//  ver <addr> <ok01> | pkt <uid> <addr> <ack> <has01> <seq> <#data> | cls <uid> <addr> | opt <uid> <addr> <frag>
 	//  frag <uid> <addr> <size> | up <uid> <addr> | down <addr> | sclose <serial> | sq <serial> <#data> | sread <serial>
+	//  t <ns> | sweep <ns>: only in real-sweep histories (thorough tier). The listener's own sweep goroutine runs once a minute and cannot
+	//  be called; the history's clock is mapped to real time at 1/40 (ConnectionTimeout 300 s -> 7.5 s, OldConnectionTimeout 1800 s -> 45 s,
+	//  a sweep at history time 2400k s is the real sweep at minute k). `t` sleeps until that time, `sweep` until 1.5 s after it.
 	register("c13", func(a []Tok) []Tok {
+		realTime := false
+		for _, t := range a {
+			if t.K == 'w' && t.W == "sweep" {
+				realTime = true
+			}
+		}
+		if realTime {
+			ct, oct := sadns.ConnectionTimeout, sadns.OldConnectionTimeout
+			sadns.ConnectionTimeout, sadns.OldConnectionTimeout = ct/40, oct/40
+			defer func() { sadns.ConnectionTimeout, sadns.OldConnectionTimeout = ct, oct }()
+		}
+		start := time.Now()
 		w := newC13()
 		defer w.comm.Close()
 		var out []Tok
 		for i := 0; i < len(a); {
 			switch a[i].W {
+			case "t", "sweep":
+				at := start.Add(time.Duration(a[i+1].I / 40))
+				if a[i].W == "sweep" {
+					at = at.Add(1500 * time.Millisecond)
+				}
+				if d := time.Until(at); d > 0 {
+					time.Sleep(d)
+				}
+				if a[i].W == "sweep" {
+					out = append(out, TW("ok"))
+				}
+				i += 2
 			case "ver":
 				v := uint32(sadns.ProtocolVersion)
 				if a[i+2].I == 0 {
